@@ -462,12 +462,26 @@ static void lock_required(const char *what)
 
 int w_noread_value;     /* value io_read returns for "no byte" when refuse_read does not say otherwise */
 
+/* Values by which the environment says "no": io callbacks (cat.h: only 1 means done) and mutex / variable callbacks
+ * (only 0 means done).  The option value selects one; the menus hold a representative of every way an int can be
+ * mangled on its way to the comparison (sign, truncation to 8 or 16 bits, bool conversion). */
+static int io_no_value(int opt)
+{
+        static const int V[] = {0, 0, -1, 2, 257, 65537, (int)0x80000001u, 256};
+        return V[opt >= 0 && opt < 8 ? opt : 0];
+}
+static int cb_fail_value(int opt)
+{
+        static const int V[] = {1, 1, -1, 256, 65536, (int)0x80000000u, 2};
+        return V[opt >= 0 && opt < 7 ? opt : 0];
+}
+
 static int io_read(char *ch)
 {
         lock_required("io read");
         L.reads_attempted++;
         /* refuse_read: 1 = "no byte" is signalled by 0; 2 = by -1; 3 = by 2 (cat.h: only 1 means a byte was read); sweeps take the value from CAT_SWEEP_NOREAD */
-        int nobyte = W.refuse_read == 2 ? -1 : W.refuse_read == 3 ? 2 : w_noread_value;
+        int nobyte = W.refuse_read > 1 ? io_no_value(W.refuse_read) : w_noread_value;
         if (w_feed) {
                 if (w_feed_pos >= w_feed_n) { L.reads_refused++; if (W.scribble) *ch = 'A'; return nobyte; }
                 uint8_t b = w_feed[w_feed_pos++];
@@ -498,8 +512,8 @@ static int io_write(char ch)
 {
         lock_required("io write");
         L.writes_attempted++;
-        /* refuse_write: 1 = refusals return 0; 2 = refusals return -1; 3 = refusals return 2 (cat.h: only 1 means written) */
-        if (W.refuse_write && mcx_choose(2) == 1) { L.writes_refused++; return W.refuse_write == 2 ? -1 : W.refuse_write == 3 ? 2 : 0; }
+        /* refuse_write: 1 = refusals return 0; 2.. = another value of io_no_value (cat.h: only 1 means written) */
+        if (W.refuse_write && mcx_choose(2) == 1) { L.writes_refused++; return io_no_value(W.refuse_write); }
         L.writes_accepted++;
         if (L.out_n < (int)sizeof L.out) L.out[L.out_n++] = (uint8_t)ch;
         if (I.out_n < (int)sizeof I.out) I.out[I.out_n++] = (uint8_t)ch;
@@ -513,7 +527,7 @@ static int mx_lock(void)
         if (I.depth != 0) VIOL(P_C16, "C16: lock() called while already locked (depth %d)", I.depth);
         if (I.api_hash_valid && w_lib_hash() != I.api_hash)
                 VIOL(P_C16, "C16: parser state changed between API entry and lock()");
-        if (W.mutex_faults && mcx_choose(2) == 1) { L.lock_failed = 1; WS.lock_faults++; return 1; }
+        if (W.mutex_faults && mcx_choose(2) == 1) { L.lock_failed = 1; WS.lock_faults++; return cb_fail_value(W.mutex_faults); }   /* cat.h: 0 = locked, anything else = cannot lock */
         I.depth++;
         return 0;
 }
@@ -525,7 +539,7 @@ static int mx_unlock(void)
         I.depth = 0;
         I.unlock_hash = w_lib_hash();
         I.unlock_hash_valid = 1;
-        if (W.mutex_faults && mcx_choose(2) == 1) { L.unlock_failed = 1; WS.unlock_faults++; return 1; }
+        if (W.mutex_faults && mcx_choose(2) == 1) { L.unlock_failed = 1; WS.unlock_faults++; return cb_fail_value(W.mutex_faults); }
         return 0;
 }
 
@@ -677,7 +691,7 @@ static int v_write(const struct cat_variable *var, const size_t write_size)
         int r = 0;
         if (W.varcb_fail) { r = mcx_choose(2); if (r) L.nonquiet = 1; }
         ref_var_cb(1, c, v, write_size, r);
-        return r;
+        return r ? cb_fail_value(W.varcb_fail) : 0;       /* any non-zero value is a failure */
 }
 
 static int v_read(const struct cat_variable *var)
@@ -689,7 +703,7 @@ static int v_read(const struct cat_variable *var)
         int r = 0;
         if (W.varcb_fail) { r = mcx_choose(2); if (r) L.nonquiet = 1; }
         ref_var_cb(0, c, v, 0, r);
-        return r;
+        return r ? cb_fail_value(W.varcb_fail) : 0;
 }
 
 /* ------------------------------------------------------------------ */
